@@ -33,6 +33,7 @@ type recDB struct {
 	failAt  int // <0: never fail; otherwise number of physical writes still allowed
 	deletes int
 	record  bool
+	refused []kv // Puts of the batch whose Write was refused (fault injection)
 }
 
 func newRecDB() *recDB { return &recDB{m: map[string][]byte{}, failAt: -1, record: true} }
@@ -152,6 +153,7 @@ func (b *recBatch) ValueSize() int { return b.size }
 
 func (b *recBatch) Write() error {
 	if !b.db.allow() {
+		b.db.refused = append([]kv{}, b.items...)
 		return errInjected
 	}
 	for _, it := range b.items {
